@@ -263,7 +263,7 @@ Proof.
     apply tw_lock_pgen with (s := s) (p := p); auto; tw_lc_solve Epc.
   - (* PSendLock *)
     destruct (tw_free (tw_mM s)) eqn:Ef; [|discriminate]. apply tw_free_none in Ef.
-    destruct (alloc (tw_q s) (len (tw_sd_msg c))) as [[q1 [a|]]|f].
+    destruct (alloc_fixed (tw_q s) (len (tw_sd_msg c))) as [[q1 [a|]]|f].
     + destruct (fill_fast q1 a (tw_sd_msg c)) as [q2|f]; injection HS as <-.
       * apply tw_lock_pgen with (s := s) (p := p); auto; tw_lc_solve Epc.
       * eapply tw_lock_same; eauto.
@@ -433,74 +433,13 @@ Proof.
   - eapply IH; eauto.
 Qed.
 
-Definition tw_msg_ok (cap : N) (m : msg) : Prop := len m + 8 <= cap \/ cap < len m.
-Definition tw_pc_ok (cap : N) (pc : tw_ppc) : Prop :=
-  match pc with
-  | TwPSendLock c | TwPSendUnlock c _ | TwPSendSleep c | TwPSendWake c _ => tw_msg_ok cap (tw_sd_msg c)
-  | _ => True
-  end.
-Definition tw_thread_ok (cap : N) (p : tw_pthread) : Prop :=
-  Forall (tw_call_ok cap) (tw_pt_calls p) /\ tw_pc_ok cap (tw_pt_pc p).
-Definition tw_prog_inv (cap : N) (s : tw_state) : Prop :=
-  forall i p, nth_error (tw_prods s) i = Some p -> tw_thread_ok cap p.
-
-Lemma tw_len_flush_msg : forall id, len (tw_flush_msg id) = 40.
-Proof. intros. reflexivity. Qed.
-Lemma tw_len_close_msg : len tw_close_msg = 40.
-Proof. reflexivity. Qed.
-
-Lemma tw_begin_prog : forall cap cs i s idx s' p', 48 <= cap -> Forall (tw_call_ok cap) cs ->
-  tw_begin i s cs idx = (s', p') -> tw_thread_ok cap p'.
-Proof.
-  intros cap. induction cs as [|c r IH]; intros i s idx s' p' Hcap Hok H; cbn [tw_begin] in H.
-  - injection H as <- <-. split; cbn; auto.
-  - pose proof (Forall_inv Hok) as Hc. pose proof (Forall_inv_tail Hok) as Hr. destruct c.
-    + injection H as <- <-. split; cbn; auto.
-    + destruct (tw_is_fsr k && tw_drop s).
-      * injection H as <- <-. split; cbn; auto.
-      * unfold tw_send_begin in H. injection H as <- <-. split; cbn; auto.
-    + injection H as <- <-. split; cbn; auto.
-    + eapply IH; eauto.
-    + destruct (Nat.ltb 1 (tw_nprod s)).
-      * injection H as <- <-. split; cbn; auto.
-      * unfold tw_send_begin in H. injection H as <- <-. split; cbn [tw_pt_calls tw_pt_pc tw_pc_ok tw_sd_msg]; auto.
-        left. rewrite tw_len_close_msg. lia.
-Qed.
-
-Lemma tw_ret_prog : forall cap i s p rc s' p', 48 <= cap -> tw_thread_ok cap p ->
-  tw_ret i s p rc = (s', p') -> tw_thread_ok cap p'.
-Proof.
-  intros cap i s p rc s' p' Hcap (Hok & _) H. unfold tw_ret in H. destruct (tw_pt_calls p) as [|c r].
-  - eapply tw_begin_prog; eauto.
-  - eapply tw_begin_prog; [exact Hcap| |exact H]. eapply Forall_inv_tail; eauto.
-Qed.
-
-Lemma tw_send_done_prog : forall cap fx i s p k ok s' p', 48 <= cap -> tw_thread_ok cap p ->
-  tw_send_done fx i s p k ok = (s', p') -> tw_thread_ok cap p'.
-Proof.
-  intros cap fx i s p k ok s' p' Hcap Hp H. unfold tw_send_done in H. destruct k as [|id mark|].
-  - eapply tw_ret_prog; eauto.
-  - destruct (id <=? _).
-    + eapply tw_ret_prog; eauto.
-    + injection H as <- <-. destruct Hp. split; cbn; auto.
-  - destruct (ok || negb fx); [|unfold tw_send_begin in H]; injection H as <- <-; destruct Hp; split; cbn; auto.
-    left. rewrite tw_len_close_msg. lia.
-Qed.
-
-Lemma tw_prog_setp : forall cap s i p1, tw_prog_inv cap s -> tw_thread_ok cap p1 -> forall s1, tw_prods s1 = tw_prods s ->
-  tw_prog_inv cap (tw_setp s1 i p1).
-Proof.
-  intros cap s i p1 HI H1 s1 E j q Hq. tw_proj. rewrite E in Hq. apply tw_nth_upd_inv in Hq.
-  destruct Hq as [->|Hq]; [exact H1|eapply HI; eauto].
-Qed.
-
 (* case analysis of a producer step: one goal per path through tw_pstep, HS : Some <new state> = Some s' *)
 Ltac tw_pcases HS :=
   repeat match type of HS with
     | (if ?c then _ else _) = Some _ => let E := fresh "Ec" in destruct c eqn:E
     | (match ?x with TwCDone => _ | _ => _ end) = Some _ => let E := fresh "Ecp" in destruct x eqn:E
     | (let '(_, _) := tw_send_begin _ _ _ _ in _) = Some _ => unfold tw_send_begin in HS
-    | (match alloc ?a ?b with _ => _ end) = Some _ => let E := fresh "Eal" in destruct (alloc a b) as [[? [?|]]|?] eqn:E
+    | (match alloc_fixed ?a ?b with _ => _ end) = Some _ => let E := fresh "Eal" in destruct (alloc_fixed a b) as [[? [?|]]|?] eqn:E
     | (match fill_fast ?a ?b ?c with _ => _ end) = Some _ => let E := fresh "Efi" in destruct (fill_fast a b c) eqn:E
     end; try discriminate.
 (* name the result of a helper (tw_begin / tw_ret / tw_send_done) and get its frame facts *)
@@ -514,22 +453,6 @@ Ltac tw_helper HS :=
           | pose proof (tw_ret_frame _ _ _ _ _ _ EX) as (F & FQ & FB)
           | pose proof (tw_send_done_frame _ _ _ _ _ _ _ _ EX) as (F & FB & FQ) ]
   end.
-
-Lemma tw_prog_pstep : forall cap fx s i p s', 48 <= cap -> tw_prog_inv cap s -> nth_error (tw_prods s) i = Some p ->
-  tw_pstep fx s i p = Some s' -> tw_prog_inv cap s'.
-Proof.
-  intros cap fx s i p s' Hcap HI Hn HS. pose proof (HI _ _ Hn) as Hp. pose proof Hp as (Hcalls & Hpc).
-  unfold tw_pstep in HS.
-  assert (Hw : forall pc, tw_pc_ok cap pc -> tw_thread_ok cap (tw_with_pc p pc)) by (intros pc Hk; split; cbn; auto).
-  destruct (tw_pt_pc p) eqn:Epc; cbn [tw_pc_ok] in Hpc; tw_pcases HS;
-    try (tw_helper HS; injection HS as <-;
-         eapply tw_prog_setp; [exact HI| |destruct F as (_&_&_&_&_&_&_&_&_&_&_&F&_); rewrite F; tw_proj; try (destruct (Nat.eqb i 0)); reflexivity];
-         first [solve [eapply tw_begin_prog; eauto] | solve [eapply tw_ret_prog; eauto] | solve [eapply tw_send_done_prog; eauto]]);
-    try (injection HS as <-; first
-      [ eapply tw_prog_setp; [exact HI| |tw_proj; try (destruct (tw_cpc s)); reflexivity];
-        apply Hw; cbn [tw_pc_ok tw_sd_msg]; auto; left; rewrite ?tw_len_flush_msg, ?tw_len_close_msg; lia
-      | intros j q Hq; tw_proj; eapply HI; eauto ]).
-Qed.
 
 (* case analysis of a consumer step *)
 Ltac tw_ccases HS :=
@@ -568,23 +491,6 @@ Proof.
   apply tw_cstep_lockM in EX; [|reflexivity]. destruct EX as (qa & ra & qb & rb & tr & _ & _ & ->). reflexivity.
 Qed.
 
-Lemma tw_prog_init : forall cap progs, tw_wf cap progs -> tw_prog_inv cap (tw_init cap progs).
-Proof.
-  intros cap progs (_ & _ & HF) i p E. unfold tw_init in E. tw_proj.
-  apply nth_error_In, in_map_iff in E. destruct E as (cs & <- & Hin). split; cbn; auto.
-  rewrite Forall_forall in HF. auto.
-Qed.
-
-Lemma tw_prog_reach : forall fx cap progs s, tw_wf cap progs -> tw_reach fx cap progs s -> tw_prog_inv cap s.
-Proof.
-  intros fx cap progs s Hwf HR. induction HR as [|s t s' HR IH HS|s d HR IH].
-  - apply tw_prog_init; auto.
-  - unfold tw_step in HS. destruct (tw_fault s); [discriminate|]. destruct t as [i|].
-    + destruct (nth_error (tw_prods s) i) as [p|] eqn:En; [|discriminate]. destruct Hwf as (H48 & _). eapply tw_prog_pstep; eauto.
-    + intros i p E. rewrite (tw_cstep_prods _ _ HS) in E. eapply IH; eauto.
-  - exact IH.
-Qed.
-
 (* ---------- the queue: exactly once, in order ---------- *)
 Lemma tw_msgs_of_app : forall a b, tw_msgs_of (a ++ b) = tw_msgs_of a ++ tw_msgs_of b.
 Proof. induction a as [|x r IH]; intros b; cbn; auto. destruct x; cbn; rewrite ?IH; auto. Qed.
@@ -615,22 +521,22 @@ Proof.
   intros s s' F. tw_use_frame F. unfold tw_fifo_same, tw_processed. repeat split; congruence.
 Qed.
 
-(* alloc + copy of a message that is outside the defect class of C08 *)
-Lemma tw_alloc_ok : forall q es m cap, Rep q es -> count q = nlen es -> size q = cap -> tw_msg_ok cap m ->
-  alloc q (len m) = Ok (q, None) \/
-  exists q1 a q2, alloc q (len m) = Ok (q1, Some a) /\ fill_fast q1 a m = Ok q2 /\
+(* jls_mrb_alloc (as it is in /repo now) + copy of the message *)
+Lemma tw_alloc_ok : forall q es m cap, Rep q es -> count q = nlen es -> size q = cap ->
+  alloc_fixed q (len m) = Ok (q, None) \/
+  exists q1 a q2, alloc_fixed q (len m) = Ok (q1, Some a) /\ fill_fast q1 a m = Ok q2 /\
     Rep q2 (es ++ [(a, len m)]) /\ count q2 = nlen (es ++ [(a, len m)]) /\ size q2 = cap /\ abs q2 = abs q ++ [m].
 Proof.
-  intros q es m cap HR HC HS [Hu|Hbig].
+  intros q es m cap HR HC HS. destruct (N.le_gt_cases (len m + 8) cap) as [Hu|Hbig].
   - assert (HU : usable (size q) (len m)) by (unfold usable; lia).
-    destruct (alloc_usable q (len m) HU) as (EA & _). rewrite EA.
+    destruct (alloc_usable q (len m) HU) as (_ & EA). rewrite EA.
     destruct (alloc_body_spec q es (len m) HR HU) as [(E & _)|(q1 & a & E & _)]; [left; exact E|right].
     destruct (alloc_fill_spec q es (len m) q1 a m HR HC HU E eq_refl)
       as ((R1 & C1) & (q2 & EF & R2 & C2 & S2 & A2) & S1 & _).
     exists q1, a, q2. split; [exact E|]. split.
     + rewrite fill_fast_eq; [exact EF|]. destruct R1 as (HL & _). exact HL.
     + split; [exact R2|]. split; [exact C2|]. split; [congruence|exact A2].
-  - left. unfold alloc. assert (size q <? len m = true) as -> by lia. reflexivity.
+  - left. apply alloc_fixed_unusable. unfold usable. lia.
 Qed.
 
 Lemma tw_peek_ok : forall q es, Rep q es ->
@@ -675,15 +581,15 @@ Ltac tw_fs_direct :=
   unfold tw_fifo_same, tw_processed; tw_proj; rewrite ?tw_msgs_of_app; cbn [tw_msgs_of]; rewrite ?app_nil_r;
   repeat split; reflexivity.
 
-Lemma tw_fifo_pstep : forall cap fx s i p s', tw_fifo cap s -> tw_thread_ok cap p -> nth_error (tw_prods s) i = Some p ->
+Lemma tw_fifo_pstep : forall cap fx s i p s', tw_fifo cap s -> nth_error (tw_prods s) i = Some p ->
   tw_pstep fx s i p = Some s' -> tw_fifo cap s'.
 Proof.
-  intros cap fx s i p s' HI (_ & Hpc) Hn HS. unfold tw_pstep in HS.
-  destruct (tw_pt_pc p) eqn:Epc; cbn [tw_pc_ok] in Hpc.
+  intros cap fx s i p s' HI Hn HS. unfold tw_pstep in HS.
+  destruct (tw_pt_pc p) eqn:Epc.
   7: { (* PSendLock *)
     destruct (tw_free (tw_mM s)); [|discriminate].
     destruct HI as (Hf & Hz & es & HR & HC & HS' & HH & HA).
-    destruct (tw_alloc_ok _ _ _ _ HR HC HS' Hpc) as [EA|(q1 & a & q2 & EA & EF & R2 & C2 & S2 & A2)]; rewrite EA in HS.
+    destruct (tw_alloc_ok _ _ (tw_sd_msg c) _ HR HC HS') as [EA|(q1 & a & q2 & EA & EF & R2 & C2 & S2 & A2)]; rewrite EA in HS.
     - injection HS as <-. split; [exact Hf|]. split; [exact Hz|]. exists es. tw_proj. auto.
     - rewrite EF in HS. injection HS as <-. split; [exact Hf|]. split; [exact Hz|].
       exists (es ++ [(a, len (tw_sd_msg c))]). tw_proj.
@@ -787,9 +693,8 @@ Qed.
 Lemma tw_fifo_reach : forall fx cap progs s, tw_wf cap progs -> tw_reach fx cap progs s -> tw_fifo cap s.
 Proof.
   intros fx cap progs s Hwf HR. induction HR as [|s t s' HR IH HS|s d HR IH].
-  - destruct Hwf as (_ & Hc & _). apply tw_fifo_init; auto.
-  - pose proof (tw_prog_reach _ _ _ _ Hwf HR) as HP.
-    unfold tw_step in HS. destruct (tw_fault s); [discriminate|]. destruct t as [i|].
+  - destruct Hwf as (_ & Hc). apply tw_fifo_init; auto.
+  -     unfold tw_step in HS. destruct (tw_fault s); [discriminate|]. destruct t as [i|].
     + destruct (nth_error (tw_prods s) i) as [p|] eqn:En; [|discriminate]. eapply tw_fifo_pstep; eauto.
     + eapply tw_fifo_cstep; eauto.
   - eapply tw_fifo_same_inv; [exact IH|]. unfold tw_fifo_same, tw_processed. tw_proj. repeat split.
@@ -1029,7 +934,7 @@ Definition tw_psum (fx : bool) (s : tw_state) (i : nat) (p : tw_pthread) (s' : t
     tw_flag s1 = (if tw_pholdsE (tw_pt_pc p1) && negb (tw_pholdsE (tw_pt_pc p)) then true else tw_flag s) /\
     tw_quit s1 = tw_quit s /\
     ((tw_q s1 = tw_q s /\ tw_accepted s1 = tw_accepted s) \/
-     (exists c q1 a, tw_pt_pc p = TwPSendLock c /\ tw_mM s = None /\ alloc (tw_q s) (len (tw_sd_msg c)) = Ok (q1, Some a) /\
+     (exists c q1 a, tw_pt_pc p = TwPSendLock c /\ tw_mM s = None /\ alloc_fixed (tw_q s) (len (tw_sd_msg c)) = Ok (q1, Some a) /\
         fill_fast q1 a (tw_sd_msg c) = Ok (tw_q s1) /\ tw_accepted s1 = tw_accepted s ++ [(i, tw_pt_idx p, tw_sd_msg c)] /\
         tw_pt_pc p1 = TwPSendUnlock c true)) /\
     (tw_in_close (tw_pt_pc p1) = true -> tw_in_close (tw_pt_pc p) = true \/
@@ -1042,9 +947,9 @@ Definition tw_psum (fx : bool) (s : tw_state) (i : nat) (p : tw_pthread) (s' : t
 Lemma tw_dpc_noholdsE : forall pc, tw_dpc pc = true -> tw_pholdsE pc = false.
 Proof. intros pc H. apply tw_dpc_noholds in H. tauto. Qed.
 
-Lemma tw_alloc_none_same : forall q sz q1, alloc q sz = Ok (q1, None) -> q1 = q.
+Lemma tw_alloc_none_same : forall q sz q1, alloc_fixed q sz = Ok (q1, None) -> q1 = q.
 Proof.
-  intros q sz q1 H. unfold alloc, alloc_body, place in H.
+  intros q sz q1 H. unfold alloc_fixed, alloc_body, place in H.
   repeat match type of H with
   | (if ?c then _ else _) = _ => destruct c
   | bind ?x _ = _ => destruct x; cbn [bind] in H
@@ -1058,7 +963,7 @@ Proof.
   destruct (tw_pt_pc p) eqn:Epc; cbn [tw_pc_head] in Hp.
   7: { (* PSendLock *)
     destruct (tw_free (tw_mM s)) eqn:Ef; [|discriminate]. apply tw_free_none in Ef.
-    destruct (alloc (tw_q s) (len (tw_sd_msg c))) as [[q1 [a|]]|f] eqn:Eal.
+    destruct (alloc_fixed (tw_q s) (len (tw_sd_msg c))) as [[q1 [a|]]|f] eqn:Eal.
     - destruct (fill_fast q1 a (tw_sd_msg c)) as [q2|f] eqn:Efi; [|right; injection HS as <-; eexists; reflexivity].
       left. injection HS as <-. cbn [fst snd].
       match goal with |- tw_psum _ _ _ _ (tw_setp ?A _ ?B) => exists A, B end. rewrite Epc. tw_proj.
@@ -1161,11 +1066,11 @@ Proof. reflexivity. Qed.
 Lemma tw_done_no_step : forall fx s i p, tw_pt_pc p = TwPDone -> tw_pstep fx s i p = None.
 Proof. intros fx s i p E. unfold tw_pstep. rewrite E. reflexivity. Qed.
 
-Lemma tw_close_pstep : forall fx cap s i p s', tw_head_inv s -> tw_cw_inv s -> tw_lock_inv s -> tw_fifo cap s -> tw_thread_ok cap p ->
+Lemma tw_close_pstep : forall fx cap s i p s', tw_head_inv s -> tw_cw_inv s -> tw_lock_inv s -> tw_fifo cap s ->
   tw_close_inv s -> nth_error (tw_prods s) i = Some p -> tw_pstep fx s i p = Some s' -> tw_close_inv s'.
 Proof.
-  intros fx cap s i p s' HH HW HL HF HT (K1 & K2 & K3 & K4 & K5) Hn HS.
-  pose proof (tw_fifo_pstep _ _ _ _ _ _ HF HT Hn HS) as HF'.
+  intros fx cap s i p s' HH HW HL HF (K1 & K2 & K3 & K4 & K5) Hn HS.
+  pose proof (tw_fifo_pstep _ _ _ _ _ _ HF Hn HS) as HF'.
   destruct (tw_pstep_sum _ _ _ _ _ (HH _ _ Hn) HS) as [SUM|(f & ->)].
   2: { destruct HF' as (Hf & _). discriminate. }
   destruct SUM as (s1 & p1 & -> & Sp & Sc & Sh & Sf & Sfl & Sq & Sa & SE1 & SE2 & (pre & Spre) & Sap).
@@ -1334,7 +1239,7 @@ Definition tw_joined_inv (s : tw_state) : Prop :=
   exists l, tw_applied s = l ++ [TwAEnd] /\ ~ In TwAEnd l.
 
 Definition tw_all_inv (cap : N) (s : tw_state) : Prop :=
-  tw_lock_inv s /\ tw_prog_inv cap s /\ tw_fifo cap s /\ tw_head_inv s /\ tw_cw_inv s /\ tw_close_inv s /\ tw_joined_inv s.
+  tw_lock_inv s /\ tw_fifo cap s /\ tw_head_inv s /\ tw_cw_inv s /\ tw_close_inv s /\ tw_joined_inv s.
 
 Lemma tw_closing_bpc_done : forall pc, tw_closing_pc pc = true -> tw_bpc pc = true -> pc = TwPDone.
 Proof. destruct pc; cbn; intros; try discriminate; auto. Qed.
@@ -1342,8 +1247,8 @@ Proof. destruct pc; cbn; intros; try discriminate; auto. Qed.
 Lemma tw_joined_pstep : forall fx cap s i p s', tw_all_inv cap s -> nth_error (tw_prods s) i = Some p ->
   tw_pstep fx s i p = Some s' -> tw_joined_inv s'.
 Proof.
-  intros fx cap s i p s' (HL & HP & HF & HH & HW & (K1 & K2 & K3 & K4 & K5) & HJ) Hn HS.
-  pose proof (tw_fifo_pstep _ _ _ _ _ _ HF (HP _ _ Hn) Hn HS) as HF'.
+  intros fx cap s i p s' (HL & HF & HH & HW & (K1 & K2 & K3 & K4 & K5) & HJ) Hn HS.
+  pose proof (tw_fifo_pstep _ _ _ _ _ _ HF Hn HS) as HF'.
   assert (Hnd : tw_pt_pc p <> TwPDone).
   { intro E. rewrite (tw_done_no_step _ _ _ _ E) in HS. discriminate. }
   destruct (tw_pstep_sum _ _ _ _ _ (HH _ _ Hn) HS) as [SUM|(f & ->)].
@@ -1388,23 +1293,23 @@ Qed.
 Lemma tw_all_reach : forall fx cap progs s, tw_wf cap progs -> tw_wf_close progs -> tw_reach fx cap progs s -> tw_all_inv cap s.
 Proof.
   intros fx cap progs s Hwf Hwc HR.
-  assert (HL := tw_lock_reach _ _ _ _ HR). assert (HP := tw_prog_reach _ _ _ _ Hwf HR).
+  assert (HL := tw_lock_reach _ _ _ _ HR).
   assert (HF := tw_fifo_reach _ _ _ _ Hwf HR). assert (HH := tw_head_reach _ _ _ _ HR).
   assert (HW := tw_cw_reach _ _ _ _ Hwc HR).
   assert (G : tw_close_inv s /\ tw_joined_inv s).
-  { clear HL HP HF HH HW. induction HR as [|s t s' HR IH HS|s d HR IH].
+  { clear HL HF HH HW. induction HR as [|s t s' HR IH HS|s d HR IH].
     - apply tw_close_init.
-    - assert (HL := tw_lock_reach _ _ _ _ HR). assert (HP := tw_prog_reach _ _ _ _ Hwf HR).
+    - assert (HL := tw_lock_reach _ _ _ _ HR).
       assert (HF := tw_fifo_reach _ _ _ _ Hwf HR). assert (HH := tw_head_reach _ _ _ _ HR).
       assert (HW := tw_cw_reach _ _ _ _ Hwc HR). destruct IH as (IC & IJ).
       unfold tw_step in HS. destruct (tw_fault s); [discriminate|]. destruct t as [i|].
       + destruct (nth_error (tw_prods s) i) as [p|] eqn:En; [|discriminate]. split.
-        * exact (tw_close_pstep fx cap s i p s' HH HW HL HF (HP _ _ En) IC En HS).
+        * exact (tw_close_pstep fx cap s i p s' HH HW HL HF IC En HS).
         * apply (tw_joined_pstep fx cap s i p s'); auto.
-          exact (conj HL (conj HP (conj HF (conj HH (conj HW (conj IC IJ)))))).
+          exact (conj HL (conj HF (conj HH (conj HW (conj IC IJ))))).
       + split; [eapply tw_close_cstep; eauto|eapply tw_joined_cstep; eauto].
     - exact IH. }
-  destruct G as (G1 & G2). exact (conj HL (conj HP (conj HF (conj HH (conj HW (conj G1 G2)))))).
+  destruct G as (G1 & G2). exact (conj HL (conj HF (conj HH (conj HW (conj G1 G2))))).
 Qed.
 
 (* C07 close_post / C06 file_refines_sync: once jls_twr_close has called jls_wr_close (AEnd), the writer
@@ -1418,7 +1323,7 @@ Lemma tw_close_post : forall fx cap progs s, tw_wf cap progs -> tw_wf_close prog
   exists l, tw_applied s = l ++ [TwAEnd] /\ ~ In TwAEnd l.
 Proof.
   intros fx cap progs s Hwf Hwc HR Hin.
-  destruct (tw_all_reach _ _ _ _ Hwf Hwc HR) as (HL & HP & HF & HH & HW & (K1 & K2 & K3 & K4 & K5) & HJ).
+  destruct (tw_all_reach _ _ _ _ Hwf Hwc HR) as (HL & HF & HH & HW & (K1 & K2 & K3 & K4 & K5) & HJ).
   destruct (HJ Hin) as (Hall & Ec & Hl). destruct (K4 Ec) as (Hq & Ha).
   destruct HF as (Hf & Hz & es & HRep & HC & HSz & HHd & HA).
   assert (Hh : tw_held s = None) by (apply Hz; rewrite Ec; reflexivity).
@@ -1474,7 +1379,7 @@ Proof. vm_compute. reflexivity. Qed.
 Lemma tw_hang_wf : tw_wf 128 tw_hang_prog /\ tw_wf_close tw_hang_prog.
 Proof.
   split.
-  - split; [lia|]. split; [lia|]. repeat constructor; cbn; lia.
+  - split; lia.
   - intros [|[|i]] cs H; cbn in H; try discriminate.
     injection H as <-. cbn. intros pre post Hx.
     destruct pre as [|a [|b [|c pre]]]; cbn in Hx; try discriminate.
@@ -1490,13 +1395,13 @@ Lemma tw_close_hang : exists s,
   length (tw_acc_msgs s) = 2%nat /\ tw_processed s = tw_acc_msgs s /\ ~ In TwAEnd (tw_applied s).
 Proof.
   pose proof tw_hang_check_true as H. unfold tw_hang_check in H.
-  destruct (tw_run false (tw_init 128 tw_hang_prog) tw_hang_sched) as [s|] eqn:E; [|discriminate].
+  destruct (tw_run false (tw_init 128 tw_hang_prog) tw_hang_sched) as [s|] eqn:E; [|discriminate H].
   exists s. destruct tw_hang_wf as (Hwf & Hwc).
   apply andb_prop in H. destruct H as (H & C6). apply andb_prop in H. destruct H as (H & C5).
   apply andb_prop in H. destruct H as (H & C4). apply andb_prop in H. destruct H as (H & C3).
   apply andb_prop in H. destruct H as (H & C2). apply andb_prop in H. destruct H as (H & C1).
-  split; [exact Hwf|]. split; [exact Hwc|]. split; [reflexivity|].
-  split; [eapply tw_run_reach; [apply tw_reach_init|exact E]|].
+  split; [exact Hwf|]. split; [exact Hwc|]. split; [first [exact E|reflexivity]|].
+  split; [eapply tw_run_reach; [apply tw_reach_init|exact E]|]. clear E.
   unfold tw_deadlocked in H. apply andb_prop in H. destruct H as (D & Df). apply andb_prop in D. destruct D as (D & Dfin).
   apply andb_prop in D. destruct D as (Den & Dsl).
   split; [apply tw_not_enabled_all; apply Bool.negb_true_iff; exact Den|].
@@ -1512,3 +1417,57 @@ Proof.
     [apply existsb_exists; exists TwAEnd; auto|congruence].
 Qed.
 
+
+(* the same decisions on the repaired protocol: producer 0 is not at the join but sending CLOSE again *)
+Definition tw_hang_repaired_check : bool :=
+  match tw_run true (tw_init 128 tw_hang_prog) (map TwDStep (repeat (TwTProd 0) 14) ++ [TwDTick 5001; TwDStep (TwTProd 0)]) with
+  | None => false
+  | Some s => tw_some_enabled true s &&
+              match map tw_pt_pc (tw_prods s) with [TwPSendLock c] => match tw_sd_k c with TwKClose => true | _ => false end | _ => false end
+  end.
+Lemma tw_hang_repaired_check_true : tw_hang_repaired_check = true.
+Proof. vm_compute. reflexivity. Qed.
+
+(* ---------- a complete run: the hypotheses of the theorems are satisfiable ---------- *)
+Definition tw_ex_check : bool :=
+  match tw_run false (tw_init 128 tw_ex_prog) tw_ex_sched, tw_run true (tw_init 128 tw_ex_prog) tw_ex_sched with
+  | Some s, Some s' =>
+    tw_final s && tw_final s' && Nat.eqb (length (tw_acc_msgs s)) 4 && Nat.eqb (length (tw_applied s)) 5 &&
+    existsb (fun a => match a with TwAEnd => true | _ => false end) (tw_applied s) &&
+    existsb (fun a => match a with TwAEnd => true | _ => false end) (tw_applied s') &&
+    existsb (fun e => match e with TwEvFlushed (TwTProd 0) 0 0 => true | _ => false end) (tw_trace s)
+  | _, _ => false
+  end.
+Lemma tw_ex_check_true : tw_ex_check = true.
+Proof. vm_compute. reflexivity. Qed.
+
+Lemma tw_ex_wf : tw_wf 128 tw_ex_prog /\ tw_wf_close tw_ex_prog.
+Proof.
+  split.
+  - split; lia.
+  - intros [|[|[|i]]] cs H; cbn in H; try discriminate; injection H as <-; cbn.
+    + intros pre post Hx. destruct pre as [|a [|b [|c pre]]]; cbn in Hx; try discriminate.
+      * injection Hx as _ _ Hx. subst. reflexivity.
+      * injection Hx as _ _ _ Hx. destruct pre; discriminate.
+    + intros [H|[]]. discriminate.
+Qed.
+
+Lemma tw_ex_run : forall fx, exists s,
+  tw_wf 128 tw_ex_prog /\ tw_wf_close tw_ex_prog /\ tw_reach fx 128 tw_ex_prog s /\
+  In TwAEnd (tw_applied s) /\ tw_final s = true.
+Proof.
+  intros fx. pose proof tw_ex_check_true as H. unfold tw_ex_check in H.
+  destruct (tw_run false (tw_init 128 tw_ex_prog) tw_ex_sched) as [s|] eqn:E; [|discriminate H].
+  destruct (tw_run true (tw_init 128 tw_ex_prog) tw_ex_sched) as [s'|] eqn:E'; [|discriminate H].
+  destruct tw_ex_wf as (Hwf & Hwc).
+  apply andb_prop in H. destruct H as (H & C6). apply andb_prop in H. destruct H as (H & C5).
+  apply andb_prop in H. destruct H as (H & C4). apply andb_prop in H. destruct H as (H & C3).
+  apply andb_prop in H. destruct H as (H & C2). apply andb_prop in H. destruct H as (C0 & C1).
+  assert (G : forall l, existsb (fun a => match a with TwAEnd => true | _ => false end) l = true -> In TwAEnd l).
+  { clear. intros l Hx. apply existsb_exists in Hx. destruct Hx as (a & Hin & Ha). destruct a; try discriminate Ha. exact Hin. }
+  destruct fx.
+  - exists s'. split; [exact Hwf|]. split; [exact Hwc|].
+    split; [eapply tw_run_reach; [apply tw_reach_init|exact E']|]. clear E E'. split; [apply G; exact C5|exact C1].
+  - exists s. split; [exact Hwf|]. split; [exact Hwc|].
+    split; [eapply tw_run_reach; [apply tw_reach_init|exact E]|]. clear E E'. split; [apply G; exact C4|exact C0].
+Qed.
